@@ -27,7 +27,7 @@ EXTRA = {"c01-frag-result-last-datagram": ["C07"], "c08-r3-fragment-glue-le": ["
          "c12-r12-map-after-try": ["C14"], "c02-r13-aa55-response-type-derived": ["C19"],
          "c07-r13-close-waits-one-timeout-only": ["C06"], "c01-r13-rtu-exception-before-crc": ["C09"],
          "c02-r14-len-falsy-empty-payload": ["C11"], "c04-r14-discover-retries-zero-after-failed-probe": ["C05"],
-         "c06-r14-probe-patches-shared-retries": ["C17"]}
+         "c06-r14-probe-patches-shared-retries": ["C17"], "c12-r15-battery-map-after-try": ["C14"]}
 only = sys.argv[1:]
 for d in sorted(glob.glob(os.path.join(ROOT, "seeded", "[!_]*"))):
     name = os.path.basename(d)
